@@ -875,6 +875,76 @@ fn ctor_unit(tier: Tier, shard: usize, ctx: &mut Ctx) {
     }
 }
 
+// ------------------------------------------------------------------ sequences of 200-300 symbols
+
+const N_LONGSEQ_UNITS: usize = 4;
+
+/// the C01 long pairs (pseudo-random x, mutated copy y, lengths around 200 and 256) through the
+/// banded aligner with realistic k and w: soundness against the O(mn) oracle of C01
+fn longseq_case(si: usize, kind: u8, go: i32, ge: i32, ci: usize, k: usize, w: usize, e: &Entry, cc: &mut CaseCtx) {
+    use super::c01::{linear_optimum, lcg_seq, mutated_copy, LONG_CLIPS, LONG_SIZES};
+    let (m, n) = LONG_SIZES[si];
+    let x = lcg_seq(si as u64 + 1, m);
+    let y = mutated_copy(&x, n, si as u64 + 77);
+    let c = LONG_CLIPS[ci];
+    let scheme = Scheme { subst: Subst { kind, emb: [b'a', b'b', b'c'] }, gap_open: go, gap_extend: ge, xclip_prefix: c[0], xclip_suffix: c[1], yclip_prefix: c[2], yclip_suffix: c[3] };
+    let mode = e.mode();
+    let eff = match mode.clips() {
+        Some(cl) => scheme.with_clips(cl),
+        None => scheme,
+    };
+    let opt = linear_optimum(&x, &y, &eff);
+    let matches = true_matches(&x, &y, k);
+    let got = guard(|| {
+        let mut a = new_aligner(&scheme, k, w, si);
+        let _ = call_entry(&mut a, e, b"abca", b"abba", k, &[]);
+        call_entry(&mut a, e, &x, &y, k, &matches)
+    });
+    cc.set_nontrivial(true);
+    match got {
+        Err(msg) => cc.violation(format!("C02/{}/long-sequences/panic", e.name()), msg),
+        Ok(al) => {
+            if let Err((symptom, detail)) = check_alignment(&al, &x, &y, &scheme, mode, opt, full_band(e, &matches), true, cc) {
+                let key = if symptom.starts_with("ins-run-split-at-yclip") || symptom.starts_with("del-run-split-at-xclip") || symptom.starts_with("zero-length-clip-in-path") {
+                    format!("C02/{}", symptom)
+                } else {
+                    format!("C02/{}/long-sequences/{}", e.name(), symptom)
+                };
+                cc.violation(key, detail.chars().take(400).collect::<String>());
+            }
+            cc.set_nontrivial(true);
+        }
+    }
+}
+
+fn longseq_unit(tier: Tier, shard: usize, ctx: &mut Ctx) {
+    let entries = [Entry::Custom, Entry::Prehash, Entry::Expanded(Some(1), true), Entry::Expanded(None, false), Entry::Global, Entry::Semiglobal, Entry::SemiglobalPrehash, Entry::Local];
+    let mut idx = 0usize;
+    for si in 0..super::c01::LONG_SIZES.len() {
+        for kind in tier.pick(vec![0u8], vec![0u8, 1, 3]) {
+            for (go, ge) in tier.pick(vec![(-2, -1)], vec![(-2, -1), (0, -1), (-3, 0)]) {
+                for (k, w) in tier.pick(vec![(8usize, 2usize), (11, 10)], vec![(6usize, 0usize), (8, 2), (11, 10), (16, 50)]) {
+                    for ci in 0..super::c01::LONG_CLIPS.len() {
+                        for e in &entries {
+                            if e.mode() != Mode::Custom && ci != 3 {
+                                continue;
+                            }
+                            idx += 1;
+                            if idx % N_LONGSEQ_UNITS != shard {
+                                continue;
+                            }
+                            ctx.case(
+                                || json!({"kind": "long", "size": si, "subst": kind, "gap_open": go, "gap_extend": ge, "clips": ci, "k": k, "w": w, "entry": e}),
+                                |cc| longseq_case(si, kind, go, ge, ci, k, w, e, cc),
+                            );
+                        }
+                    }
+                }
+            }
+        }
+    }
+}
+
 // ------------------------------------------------------------------ Prop
 
 impl Prop for C02Prop {
@@ -905,6 +975,7 @@ impl Prop for C02Prop {
             "long_binary_len": tier.pick("4..=5", "5..=6"), "blocks": tier.pick("27 x-strings x 39 y-strings (len 8..14)", "64 x 84 (len 8..17)"), "long_clip_settings": 24,
             "long_kw": tier.pick("binary (2,0) (3,0) (3,1) (4,1); blocks (2,0) (3,0) (3,1) (3,2)", "binary (2,0) (2,1) (3,0) (3,1) (3,2) (4,0) (4,1) (5,1); blocks (2,0) (2,1) (3,0) (3,1) (3,2) (3,3) (4,0) (4,2)"),
             "constructors": "banded::Aligner::new, ::with_capacity on 3 substitution x 3 gap x 3 (k,w) schemes",
+            "long_sequences": tier.pick("the eight C01 long pairs (lengths 199..300) x (k,w) in (8,2) (11,10) x 5 clip settings x 8 entry points, soundness against the O(mn) oracle", "as quick with 3 substitution kinds, 3 gap pairs, (k,w) in (6,0) (8,2) (11,10) (16,50)"),
             "budget": "(|x|,|y|) in {(2235,2235) 4,999,696; (1999,2499),(2499,1999),(1,2499999) exactly 5,000,000; (2,1666666) 5,000,001; (2236,2236); (4999,1000)} x {custom, global, semiglobal, local}",
         })
     }
@@ -926,6 +997,9 @@ impl Prop for C02Prop {
         for i in 0..N_CTOR_UNITS {
             v.push(format!("constructors-{}", i));
         }
+        for i in 0..N_LONGSEQ_UNITS {
+            v.push(format!("long-sequences-{}", i));
+        }
         v
     }
     fn run_unit(&self, tier: Tier, unit: usize, ctx: &mut Ctx) {
@@ -941,8 +1015,10 @@ impl Prop for C02Prop {
             let i = unit - c.len() - EMPTY_SHARDS - 4;
             // cfg_idx (constructor choice, replay) continues after the short sweeps
             sweep(&l[i], c.len() + i, tier, ctx, None);
-        } else {
+        } else if unit < c.len() + EMPTY_SHARDS + 4 + long_cfgs(tier).len() + N_CTOR_UNITS {
             ctor_unit(tier, unit - c.len() - EMPTY_SHARDS - 4 - long_cfgs(tier).len(), ctx);
+        } else {
+            longseq_unit(tier, unit - c.len() - EMPTY_SHARDS - 4 - long_cfgs(tier).len() - N_CTOR_UNITS, ctx);
         }
     }
     fn replay(&self, case: &Value, ctx: &mut Ctx) {
@@ -990,6 +1066,13 @@ impl Prop for C02Prop {
                     _ => if cfg.maxlen >= 4 || (cfg.alpha == "abc" && cfg.maxlen >= 3) { Tier::Thorough } else { Tier::Quick },
                 };
                 sweep(&cfg, cfg_idx, tier, ctx, Some(calls));
+            }
+            "long" => {
+                let u = |k: &str| case[k].as_u64().unwrap_or(0) as usize;
+                let i = |k: &str| case[k].as_i64().unwrap_or(0) as i32;
+                let e: Entry = serde_json::from_value(case["entry"].clone()).unwrap();
+                let (si, ci) = (u("size").min(super::c01::LONG_SIZES.len() - 1), u("clips").min(super::c01::LONG_CLIPS.len() - 1));
+                ctx.case(|| case.clone(), |cc| longseq_case(si, u("subst") as u8, i("gap_open"), i("gap_extend"), ci, u("k").max(1), u("w"), &e, cc));
             }
             "constructor" => {
                 let scheme: Scheme = serde_json::from_value(case["scheme"].clone()).unwrap();
